@@ -26,6 +26,7 @@ def run(tier, seed):
     common.validate_f(chk, {s: os.path.join(sw, "sweeps_%d.ndjson" % s) for s in (44, 65, 87)}, nproc=6, chunks_per_set=2, key_of=lambda m: "rare-key:" + m["ev"])
     common.nohooks_leg(chk, "honest", nseeds=2, nmsgs=4)
     common.native_leg(chk, "honest", nseeds=2, nmsgs=6)
+    n += common.crossset_leg(chk, bindir, rounds=3 if tier == "quick" else 24)
     common.mc_leg(chk, "MC_API", tier=tier, workers=12)
     common.mc_leg(chk, "MC_ToySign", tier=tier)
     if tier == "thorough":
